@@ -1426,3 +1426,677 @@ theorem abortIf_ext (ha : K .abortIf = true) :
 end
 
 end Redress
+
+
+/-! ## A fourth relation: request-level footprints with exact time, `last_stop_reason` tracking and
+    exception provenance  (used by C05 and C16)
+
+`FootX Q w0 w`: `w` arises from `w0` by appending exchanges whose REQUESTS satisfy `Q`, the clock
+advancing by exactly the durations of their answers; `rs` unchanged.  `FootXS`: the same, except that
+`rs.lastStop` may have changed (procedures that set `last_stop_reason`).  On the exceptional exit every
+lemma also says where the exception comes from (`ExcX` / `ExcS`): one of the procedure's own `raise`
+statements (`Own`), or a callback that raised it since `w0` and whose error the library does not
+swallow (`Prov`; `stuck` is the model's "ill-shaped or missing oracle answer").  Some lemmas also say
+what the procedure returns (`_build_outcome`, `_handle_sleep_decision`, …). -/
+
+namespace Redress.FX
+open Redress Redress.Retry
+
+/-! ### request-level footprints with exact time and exception provenance -/
+
+/-- total duration of a list of exchanges -/
+def durSum : List (Req × Ans) → Nat
+  | [] => 0
+  | x :: xs => x.2.dur + durSum xs
+
+theorem durSum_append (a b : List (Req × Ans)) : durSum (a ++ b) = durSum a + durSum b := by
+  induction a with
+  | nil => simp [durSum]
+  | cons x xs ih => simp [durSum, ih, Nat.add_assoc]
+
+/-- requests whose `Exception`s the library swallows (`emit`, `_emit_breaker_event`, `_call_before_sleep`) -/
+def swallowed : Req → Bool
+  | .metric .. | .log .. | .beforeSleep .. => true
+  | _ => false
+
+/-- the breaker's own events -/
+def circuitEv : Event → Bool
+  | .circuitOpened | .circuitHalfOpen | .circuitClosed | .circuitRejected => true
+  | _ => false
+
+/-- `e` was raised by a callback in `δ`, and not where it would have been swallowed -/
+def raisedIn (e : Exn) (δ : List (Req × Ans)) : Prop :=
+  ∃ r d, (r, Ans.raise e d) ∈ δ ∧ (swallowed r = true → e.isException = false)
+
+/-- A *request-level footprint*: `w` arises from `w0` by appending exchanges whose requests all satisfy
+    `Q`, the clock advancing by exactly their durations; `rs` is unchanged. -/
+structure FootX (Q : Req → Bool) (w0 w : World) : Prop where
+  trace : ∃ δ, w.trace = δ ++ w0.trace ∧ (∀ x ∈ δ, Q x.1 = true) ∧ w.now = w0.now + durSum δ
+  rs : w.rs = w0.rs
+
+/-- …`rs` unchanged except for `lastStop` -/
+structure FootXS (Q : Req → Bool) (w0 w : World) : Prop where
+  trace : ∃ δ, w.trace = δ ++ w0.trace ∧ (∀ x ∈ δ, Q x.1 = true) ∧ w.now = w0.now + durSum δ
+  rs : w.rs = { w0.rs with lastStop := w.rs.lastStop }
+
+/-- where an exception leaving a procedure comes from: an ill-shaped / missing oracle answer (model
+    only), or a callback that raised it since `w0` -/
+def Prov (e : Exn) (w0 w : World) : Prop :=
+  e = .stuck ∨ ∃ δ, w.trace = δ ++ w0.trace ∧ raisedIn e δ
+
+section
+variable {Q : Req → Bool}
+
+theorem FootX.toS {w w' : World} (h : FootX Q w w') : FootXS Q w w' :=
+  ⟨h.trace, by rw [h.rs]⟩
+
+theorem FootX.lastStop {w w' : World} (h : FootX Q w w') : w'.rs.lastStop = w.rs.lastStop := by rw [h.rs]
+
+theorem FootX.refl (w : World) : FootX Q w w :=
+  ⟨⟨[], by simp, by simp, by simp [durSum]⟩, rfl⟩
+
+theorem FootXS.refl (w : World) : FootXS Q w w := (FootX.refl w).toS
+
+theorem FootX.trans {w₁ w₂ w₃ : World} (h₁ : FootX Q w₁ w₂) (h₂ : FootX Q w₂ w₃) : FootX Q w₁ w₃ := by
+  obtain ⟨δ₁, e₁, k₁, t₁⟩ := h₁.trace
+  obtain ⟨δ₂, e₂, k₂, t₂⟩ := h₂.trace
+  refine ⟨⟨δ₂ ++ δ₁, by simp [e₂, e₁], ?_, by rw [t₂, t₁, durSum_append]; omega⟩, by rw [h₂.rs, h₁.rs]⟩
+  intro x hx
+  rcases List.mem_append.mp hx with h | h
+  · exact k₂ x h
+  · exact k₁ x h
+
+theorem FootXS.trans {w₁ w₂ w₃ : World} (h₁ : FootXS Q w₁ w₂) (h₂ : FootXS Q w₂ w₃) : FootXS Q w₁ w₃ := by
+  obtain ⟨δ₁, e₁, k₁, t₁⟩ := h₁.trace
+  obtain ⟨δ₂, e₂, k₂, t₂⟩ := h₂.trace
+  refine ⟨⟨δ₂ ++ δ₁, by simp [e₂, e₁], ?_, by rw [t₂, t₁, durSum_append]; omega⟩, by rw [h₂.rs, h₁.rs]⟩
+  intro x hx
+  rcases List.mem_append.mp hx with h | h
+  · exact k₂ x h
+  · exact k₁ x h
+
+theorem FootX.mono {Q' : Req → Bool} {w w' : World} (h : FootX Q w w')
+    (hq : ∀ r, Q r = true → Q' r = true) : FootX Q' w w' := by
+  obtain ⟨δ, e, k, t⟩ := h.trace
+  exact ⟨⟨δ, e, fun x hx => hq _ (k x hx), t⟩, h.rs⟩
+
+theorem FootXS.mono {Q' : Req → Bool} {w w' : World} (h : FootXS Q w w')
+    (hq : ∀ r, Q r = true → Q' r = true) : FootXS Q' w w' := by
+  obtain ⟨δ, e, k, t⟩ := h.trace
+  exact ⟨⟨δ, e, fun x hx => hq _ (k x hx), t⟩, h.rs⟩
+
+/-- one exchange -/
+theorem FootX.exchange (w : World) (r : Req) (a : Ans) (rest : List Ans) (hk : Q r = true) :
+    FootX Q w { w with answers := rest, now := w.now + a.dur, trace := (r, a) :: w.trace } :=
+  ⟨⟨[(r, a)], rfl, by simp [hk], by simp [durSum]⟩, rfl⟩
+
+/-- the oracle is exhausted -/
+theorem FootX.exhausted (w : World) (r : Req) (hk : Q r = true) :
+    FootX Q w { w with trace := (r, Ans.raise .stuck 0) :: w.trace } :=
+  ⟨⟨[(r, Ans.raise .stuck 0)], rfl, by simp [hk], by simp [durSum, Ans.dur]⟩, rfl⟩
+
+/-- changes outside the footprint's concern -/
+theorem FootX.frame (w : World) (as : AState) (att oc : Nat) (tl : List TimelineEv) (tls : Nat)
+    (bud : Budget.St) (br : Breaker.St) (xc : XCtx) :
+    FootX Q w { w with as := as, attempts := att, opCalls := oc, timeline := tl, tlStart := tls,
+                       budget := bud, breaker := br, xc := xc } :=
+  ⟨⟨[], rfl, by simp, by simp [durSum]⟩, rfl⟩
+
+/-- `lastStop` may change -/
+theorem FootXS.stop (w : World) (stop : Option StopReason) :
+    FootXS Q w { w with rs := { w.rs with lastStop := stop } } :=
+  ⟨⟨[], rfl, by simp, by simp [durSum]⟩, rfl⟩
+
+/-- an interaction with an embedded component, logged without consuming an oracle answer -/
+theorem FootX.internal (w : World) (r : Req) (a : Ans) (bud : Budget.St) (br : Breaker.St) (xc : XCtx)
+    (hk : Q r = true) (hd : a.dur = 0) :
+    FootX Q w { w with trace := (r, a) :: w.trace, budget := bud, breaker := br, xc := xc } :=
+  ⟨⟨[(r, a)], rfl, by simp [hk], by simp [durSum, hd]⟩, rfl⟩
+
+theorem Prov.of_exchange (w : World) (r : Req) (e : Exn) (d : Nat) (rest : List Ans)
+    (hs : swallowed r = true → e.isException = false) :
+    Prov e w { w with answers := rest, now := w.now + d, trace := (r, Ans.raise e d) :: w.trace } :=
+  Or.inr ⟨[(r, Ans.raise e d)], rfl, r, d, by simp, hs⟩
+
+theorem Prov.of_exchange_sw (w : World) (r : Req) (e : Exn) (d : Nat) (rest : List Ans) :
+    e.isException = true ∨
+      Prov e w { w with answers := rest, now := w.now + d, trace := (r, Ans.raise e d) :: w.trace } := by
+  cases he : e.isException
+  · exact Or.inr (Prov.of_exchange _ _ _ _ _ (fun _ => he))
+  · exact Or.inl rfl
+
+theorem Prov.lift {e : Exn} {w0 w w' : World} (h : FootXS Q w0 w) (hp : Prov e w w') : Prov e w0 w' := by
+  rcases hp with hp | ⟨δ, e₁, hr⟩
+  · exact Or.inl hp
+  · obtain ⟨δ₀, e₀, _, _⟩ := h.trace
+    exact Or.inr ⟨δ ++ δ₀, by simp [e₁, e₀], by
+      obtain ⟨r, d, hm, hs⟩ := hr
+      exact ⟨r, d, List.mem_append_left _ hm, hs⟩⟩
+
+end
+
+/-- what is known when a procedure is left by an exception `e`: the footprint, and where `e` comes
+    from — the procedure's own errors (`Own`) or a callback (`Prov`) -/
+structure ExcX (Q : Req → Bool) (Own : Exn → Prop) (w0 w : World) (e : Exn) : Prop where
+  foot : FootX Q w0 w
+  src : Own e ∨ Prov e w0 w
+
+structure ExcS (Q : Req → Bool) (Own : Exn → Prop) (w0 w : World) (e : Exn) : Prop where
+  foot : FootXS Q w0 w
+  src : Own e ∨ Prov e w0 w
+
+/-- no errors of its own -/
+abbrev noOwn : Exn → Prop := fun _ => False
+/-- `Exception`s (they will be swallowed by the caller) -/
+abbrev swOwn : Exn → Prop := fun e => e.isException = true
+
+section
+variable {Q : Req → Bool} {Own Own' : Exn → Prop} {e : Exn} {w0 w w' : World}
+
+theorem ExcX.toS (h : ExcX Q Own w w' e) : ExcS Q Own w w' e := ⟨h.1.toS, h.2⟩
+
+theorem ExcX.weaken (h : ExcX Q Own w w' e) (ho : Own e → Own' e) : ExcX Q Own' w w' e :=
+  ⟨h.1, h.2.imp ho id⟩
+
+theorem ExcS.weaken (h : ExcS Q Own w w' e) (ho : Own e → Own' e) : ExcS Q Own' w w' e :=
+  ⟨h.1, h.2.imp ho id⟩
+
+theorem ExcX.lift (h₀ : FootX Q w0 w) (h : ExcX Q Own w w' e) : ExcX Q Own w0 w' e :=
+  ⟨h₀.trans h.1, h.2.imp id (Prov.lift h₀.toS)⟩
+
+theorem ExcS.lift (h₀ : FootXS Q w0 w) (h : ExcS Q Own w w' e) : ExcS Q Own w0 w' e :=
+  ⟨h₀.trans h.1, h.2.imp id (Prov.lift h₀)⟩
+
+/-- an error of the procedure's own -/
+theorem ExcX.own (h : FootX Q w0 w) (ho : Own e) : ExcX Q Own w0 w e := ⟨h, Or.inl ho⟩
+theorem ExcS.own (h : FootXS Q w0 w) (ho : Own e) : ExcS Q Own w0 w e := ⟨h, Or.inl ho⟩
+
+/-- what `swallowException` lets through -/
+theorem ExcX.unswallow (h : ExcX Q swOwn w w' e) (he : ¬ e.isException = true) : ExcX Q Own w w' e :=
+  ⟨h.1, h.2.elim (fun h' => absurd h' he) Or.inr⟩
+
+theorem ExcX.unswallow' (h : ExcX Q swOwn w w' e) (he : e.isException = false) : ExcX Q Own w w' e :=
+  h.unswallow (by simp [he])
+
+end
+
+/-- postcondition: footprint on both exits, provenance on the exceptional one -/
+abbrev fxPost (Q : Req → Bool) (w0 : World) (Own : Exn → Prop := noOwn) :
+    PostCond α (.except Exn (.arg World .pure)) :=
+  post⟨fun _ w => ⌜FootX Q w0 w⌝, fun e w => ⌜ExcX Q Own w0 w e⌝⟩
+
+/-- …for procedures that may set `lastStop` -/
+abbrev fxsPost (Q : Req → Bool) (w0 : World) (Own : Exn → Prop := noOwn) :
+    PostCond α (.except Exn (.arg World .pure)) :=
+  post⟨fun _ w => ⌜FootXS Q w0 w⌝, fun e w => ⌜ExcS Q Own w0 w e⌝⟩
+
+section
+variable (Q : Req → Bool) (w0 : World)
+
+theorem ask_fx (r : Req) (hk : Q r = true) (hs : swallowed r = false) :
+    ⦃fun w => ⌜FootX Q w0 w⌝⦄ ask r ⦃fxPost Q w0⦄ := by
+  mvcgen [ask]
+  all_goals first
+    | exact FootX.trans (by assumption) (FootX.exchange _ _ _ _ hk)
+    | exact ⟨FootX.trans (by assumption) (FootX.exhausted _ _ hk), Or.inr (Or.inl rfl)⟩
+    | exact ⟨FootX.trans (by assumption) (FootX.exchange _ _ _ _ hk),
+        Or.inr (Prov.lift (FootX.toS (by assumption)) (Prov.of_exchange _ _ _ _ _ (by simp [hs])))⟩
+
+/-- a request whose `Exception`s the caller will swallow -/
+theorem ask_fxW (r : Req) (hk : Q r = true) :
+    ⦃fun w => ⌜FootX Q w0 w⌝⦄ ask r ⦃fxPost Q w0 swOwn⦄ := by
+  mvcgen [ask]
+  all_goals first
+    | exact FootX.trans (by assumption) (FootX.exchange _ _ _ _ hk)
+    | exact ⟨FootX.trans (by assumption) (FootX.exhausted _ _ hk), Or.inr (Or.inl rfl)⟩
+    | exact ⟨FootX.trans (by assumption) (FootX.exchange _ _ _ _ hk),
+        (Prov.of_exchange_sw _ _ _ _ _).imp id (Prov.lift (FootX.toS (by assumption)))⟩
+
+/-- split every hypothesis that is a conjunction (mvcgen hands over a spec's postcondition as one fact) -/
+macro "split_ands" : tactic => `(tactic| repeat (revert ‹_ ∧ _›; rintro ⟨_, _⟩))
+
+theorem ExcX.stuck {Q : Req → Bool} {Own : Exn → Prop} {w0 w : World} (h : FootX Q w0 w) :
+    ExcX Q Own w0 w .stuck := ⟨h, Or.inr (Or.inl rfl)⟩
+theorem ExcS.stuck {Q : Req → Bool} {Own : Exn → Prop} {w0 w : World} (h : FootXS Q w0 w) :
+    ExcS Q Own w0 w .stuck := ⟨h, Or.inr (Or.inl rfl)⟩
+
+/-- chain footprint hypotheses -/
+syntax "fx_chain" : tactic
+macro_rules
+  | `(tactic| fx_chain) => `(tactic| first
+      | assumption
+      | exact FootX.refl _
+      | exact FootXS.refl _
+      | exact FootX.frame _ _ _ _ _ _ _ _ _
+      | exact FootXS.stop _ _
+      | exact FootX.toS (by assumption)
+      | exact ExcX.foot (by assumption)
+      | exact ExcS.foot (by assumption)
+      | exact FootX.toS (ExcX.foot (by assumption))
+      | exact FootX.toS (FootX.frame _ _ _ _ _ _ _ _ _)
+      | exact FootX.internal _ _ _ _ _ _ (by assumption) rfl
+      | exact FootX.toS (FootX.internal _ _ _ _ _ _ (by assumption) rfl)
+      | (refine FootX.trans (by assumption) ?_; fx_chain)
+      | (refine FootX.trans (ExcX.foot (by assumption)) ?_; fx_chain)
+      | (refine FootXS.trans (by assumption) ?_; fx_chain)
+      | (refine FootXS.trans (FootX.toS (by assumption)) ?_; fx_chain)
+      | (refine FootXS.trans (ExcS.foot (by assumption)) ?_; fx_chain)
+      | (refine FootXS.trans (FootX.toS (ExcX.foot (by assumption))) ?_; fx_chain))
+
+/-- side goal `Own e → Own' e` -/
+syntax "own_side" : tactic
+macro_rules
+  | `(tactic| own_side) => `(tactic| (intro h; first | exact h | exact h.elim | exact Or.inl h | exact Or.inr h | (simp_all; done)))
+
+/-- exceptional exits -/
+syntax "exc_chain" : tactic
+macro_rules
+  | `(tactic| exc_chain) => `(tactic| first
+      | assumption
+      | exact ExcX.toS (by assumption)
+      | exact ExcX.unswallow (by assumption) (by assumption)
+      | exact ExcX.unswallow' (by assumption) (by assumption)
+      | exact ExcX.toS (ExcX.unswallow (by assumption) (by assumption))
+      | exact ExcX.toS (ExcX.unswallow' (by assumption) (by assumption))
+      | (refine ExcX.weaken (by assumption) ?_; own_side)
+      | (refine ExcS.weaken (by assumption) ?_; own_side)
+      | (refine ExcS.weaken (ExcX.toS (by assumption)) ?_; own_side)
+      | exact ExcX.stuck (by fx_chain)
+      | exact ExcS.stuck (by fx_chain)
+      | (refine ExcX.own ?_ ?_ <;> first | fx_chain | rfl | trivial | (simp_all; done))
+      | (refine ExcS.own ?_ ?_ <;> first | fx_chain | rfl | trivial | (simp_all; done))
+      | (refine ExcX.lift (by assumption) ?_; exc_chain)
+      | (refine ExcX.lift (ExcX.foot (by assumption)) ?_; exc_chain)
+      | (refine ExcS.lift (by assumption) ?_; exc_chain)
+      | (refine ExcS.lift (FootX.toS (by assumption)) ?_; exc_chain)
+      | (refine ExcS.lift (ExcS.foot (by assumption)) ?_; exc_chain)
+      | (refine ExcS.lift (FootX.toS (ExcX.foot (by assumption))) ?_; exc_chain))
+
+macro "fx_close" : tactic => `(tactic| all_goals (
+  (try subst_vars) <;> (try intros) <;> (try simp only [restore_dummy] at *) <;> (try split_ands) <;>
+  first
+    | assumption
+    | rfl
+    | fx_chain
+    | exc_chain
+    | (refine ⟨?_, ?_⟩ <;> (first | rfl | trivial | assumption | fx_chain | (have hls := FootX.lastStop (by assumption); simp_all; done) | (simp_all; done)))
+    | (simp_all; done)
+    | skip))
+
+theorem askMetric_fx (ev : Event) (a s : Nat) (t : Tags) (hm : Q (.metric ev a s t) = true) :
+    ⦃fun w => ⌜FootX Q w0 w⌝⦄ askMetric ev a s t ⦃fxPost Q w0 swOwn⦄ := by
+  have h_ask_fxW := ask_fxW Q
+  mvcgen [askMetric, h_ask_fxW]
+  fx_close
+
+theorem askLog_fx (ev : Event) (a s : Nat) (t : Tags) (ra : Option Int) (hl : Q (.log ev a s t ra) = true) :
+    ⦃fun w => ⌜FootX Q w0 w⌝⦄ askLog ev a s t ra ⦃fxPost Q w0 swOwn⦄ := by
+  have h_ask_fxW := ask_fxW Q
+  mvcgen [askLog, h_ask_fxW]
+  fx_close
+
+theorem setStop_fx (s : StopReason) :
+    ⦃fun w => ⌜FootXS Q w0 w⌝⦄ setStop s
+    ⦃post⟨fun _ w => ⌜w.rs.lastStop = some s ∧ FootXS Q w0 w⌝, fun e w => ⌜ExcS Q noOwn w0 w e⌝⟩⦄ := by
+  mvcgen [setStop, modifyRS]
+  fx_close
+
+theorem recordTimeline_fx (ev : Event) (a s : Nat) (t : Tags) :
+    ⦃fun w => ⌜FootX Q w0 w⌝⦄ recordTimeline ev a s t ⦃fxPost Q w0⦄ := by
+  mvcgen [recordTimeline]
+  fx_close
+
+
+theorem metricHook_fx (cfg : Cfg) (tl : Bool) (ev : Event) (a s : Nat) (t : Tags)
+    (hm : Q (.metric ev a s t) = true) :
+    ⦃fun w => ⌜FootX Q w0 w⌝⦄ metricHook cfg tl ev a s t ⦃fxPost Q w0 swOwn⦄ := by
+  have h_askMetric_fx := askMetric_fx Q
+  have h_recordTimeline_fx := recordTimeline_fx Q
+  mvcgen [metricHook, h_askMetric_fx, h_recordTimeline_fx]
+  fx_close
+
+
+/-- `emit`: only `BaseException`s of the hooks get out -/
+theorem emit_fx (cfg : Cfg) (tl : Bool) (ev : Event) (attempt sleep : Nat) (klass : Option EClass)
+    (exc : Option Exn) (stop : Option StopReason) (cause : Option Cause) (cls : Option Classification)
+    (hm : ∀ t, Q (.metric ev attempt sleep t) = true) (hl : ∀ t ra, Q (.log ev attempt sleep t ra) = true) :
+    ⦃fun w => ⌜FootX Q w0 w⌝⦄ emit cfg tl ev attempt sleep klass exc stop cause cls ⦃fxPost Q w0⦄ := by
+  have h_metricHook_fx := metricHook_fx Q
+  have h_askLog_fx := askLog_fx Q
+  mvcgen [emit, swallowException, h_metricHook_fx, h_askLog_fx]
+  fx_close
+
+
+theorem checkAbort_fx (cfg : Cfg) (tl : Bool) (attempt : Nat) (ha : Q .abortIf = true)
+    (hm : ∀ t, Q (.metric .aborted attempt 0 t) = true) (hl : ∀ t ra, Q (.log .aborted attempt 0 t ra) = true) :
+    ⦃fun w => ⌜FootXS Q w0 w⌝⦄ checkAbort cfg tl attempt ⦃fxsPost Q w0 (· = .libAbort)⦄ := by
+  have h_emit_fx := emit_fx Q
+  have h_setStop_fx := setStop_fx Q
+  have h_ask_fx := ask_fx Q
+  mvcgen [checkAbort, h_emit_fx, h_setStop_fx, h_ask_fx]
+  fx_close
+
+theorem stopWith_fx (cfg : Cfg) (tl : Bool) (s : StopReason) (ev : Event) (attempt : Nat) (k : EClass)
+    (exc : Option Exn) (cause : Cause)
+    (hm : ∀ t, Q (.metric ev attempt 0 t) = true) (hl : ∀ t ra, Q (.log ev attempt 0 t ra) = true) :
+    ⦃fun w => ⌜FootXS Q w0 w⌝⦄ stopWith cfg tl s ev attempt k exc cause
+    ⦃post⟨fun d w => ⌜d = .raise ∧ FootXS Q w0 w⌝, fun e w => ⌜ExcS Q noOwn w0 w e⌝⟩⦄ := by
+  have h_emit_fx := emit_fx Q
+  have h_setStop_fx := setStop_fx Q
+  mvcgen [stopWith, h_emit_fx, h_setStop_fx]
+  fx_close
+
+theorem recordStrategySuccess_fx (cfg : Cfg) (hs : ∀ k, Q (.stratRecordSuccess k) = true) :
+    ⦃fun w => ⌜FootX Q w0 w⌝⦄ recordStrategySuccess cfg ⦃fxPost Q w0⦄ := by
+  have h_ask_fx := ask_fx Q
+  mvcgen [recordStrategySuccess, getRS, h_ask_fx]
+  fx_close
+
+theorem stratRecordFailure_fx (cfg : Cfg) (key : SKey) (k : EClass) (hs : Q (.stratRecordFailure key k) = true) :
+    ⦃fun w => ⌜FootX Q w0 w⌝⦄ stratRecordFailure cfg key k ⦃fxPost Q w0⦄ := by
+  have h_ask_fx := ask_fx Q
+  mvcgen [stratRecordFailure, h_ask_fx]
+  fx_close
+
+theorem callStrategy_fx (key : SKey) (kind : SKind) (ctx : BackoffCtx) (hs : Q (.strategy key kind ctx) = true) :
+    ⦃fun w => ⌜FootX Q w0 w⌝⦄ callStrategy key kind ctx ⦃fxPost Q w0⦄ := by
+  have h_ask_fx := ask_fx Q
+  mvcgen [callStrategy, h_ask_fx]
+  fx_close
+
+theorem callClassifier_fx (e : Exn) (hc : Q (.classify e.ref) = true) :
+    ⦃fun w => ⌜FootX Q w0 w⌝⦄ callClassifier e ⦃fxPost Q w0⦄ := by
+  have h_ask_fx := ask_fx Q
+  mvcgen [callClassifier, h_ask_fx]
+  fx_close
+
+theorem shouldClassifyResult_fx (cfg : Cfg) (v : Nat) (hc : Q (.resultClassify v) = true) :
+    ⦃fun w => ⌜FootX Q w0 w⌝⦄ shouldClassifyResult cfg v ⦃fxPost Q w0⦄ := by
+  have h_ask_fx := ask_fx Q
+  mvcgen [shouldClassifyResult, h_ask_fx]
+  fx_close
+
+theorem callAttemptStart_fx (cfg : Cfg) (attempt : Nat) (hs : ∀ c, Q (.attemptStart c) = true) :
+    ⦃fun w => ⌜FootX Q w0 w⌝⦄ callAttemptStart cfg attempt ⦃fxPost Q w0⦄ := by
+  have h_ask_fx := ask_fx Q
+  mvcgen [callAttemptStart, elapsed, h_ask_fx]
+  fx_close
+
+theorem callAttemptEnd_fx (cfg : Cfg) (attempt : Nat) (cls : Option Classification) (exc : Option Exn)
+    (result : Option Nat) (d : AttemptDecision) (stop : Option StopReason) (cause : Option Cause)
+    (sleep : Option Nat) (he : ∀ c, Q (.attemptEnd c) = true) :
+    ⦃fun w => ⌜FootX Q w0 w⌝⦄ callAttemptEnd cfg attempt cls exc result d stop cause sleep ⦃fxPost Q w0⦄ := by
+  have h_ask_fx := ask_fx Q
+  mvcgen [callAttemptEnd, elapsed, h_ask_fx]
+  fx_close
+
+
+theorem callAttemptEndFromOutcome_fx (cfg : Cfg) (attempt : Nat) (o : AOutcome)
+    (he : ∀ c, Q (.attemptEnd c) = true) :
+    ⦃fun w => ⌜FootX Q w0 w⌝⦄ callAttemptEndFromOutcome cfg attempt o ⦃fxPost Q w0⦄ := by
+  have h_callAttemptEnd_fx := callAttemptEnd_fx Q
+  mvcgen [callAttemptEndFromOutcome, h_callAttemptEnd_fx]
+  fx_close
+
+theorem callBeforeSleep_fx (cfg : Cfg) (ctx : BackoffCtx) (sleep : Nat)
+    (hb : ∀ lvl, Q (.beforeSleep lvl ctx sleep) = true) :
+    ⦃fun w => ⌜FootX Q w0 w⌝⦄ callBeforeSleep cfg ctx sleep ⦃fxPost Q w0⦄ := by
+  have h_ask_fxW := ask_fxW Q
+  mvcgen [callBeforeSleep, swallowException, h_ask_fxW]
+  fx_close
+
+theorem callSleeper_fx (cfg : Cfg) (sleep : Nat) (hs : ∀ lvl, Q (.sleeper lvl sleep) = true) :
+    ⦃fun w => ⌜FootX Q w0 w⌝⦄ callSleeper cfg sleep ⦃fxPost Q w0⦄ := by
+  have h_ask_fx := ask_fx Q
+  mvcgen [callSleeper, h_ask_fx]
+  fx_close
+
+theorem callSleepHandler_fx (lvl : Lvl) (ctx : BackoffCtx) (sleep : Nat)
+    (hs : Q (.sleepHandler lvl ctx sleep) = true) :
+    ⦃fun w => ⌜FootX Q w0 w⌝⦄ callSleepHandler lvl ctx sleep ⦃fxPost Q w0⦄ := by
+  have h_ask_fx := ask_fx Q
+  mvcgen [callSleepHandler, h_ask_fx]
+  fx_close
+
+/-- `_build_outcome` reads the state; what it reports -/
+theorem buildOutcome_fx (ok : Bool) (value : Option Nat) (attempts : Nat) (ns : Option Nat) :
+    ⦃fun w => ⌜FootX Q w0 w⌝⦄ buildOutcome ok value attempts ns
+    ⦃post⟨fun o w => ⌜(o.ok = ok ∧ o.nextSleep = ns ∧ o.stop = (if ok then none else w.rs.lastStop)) ∧ FootX Q w0 w⌝,
+          fun e w => ⌜ExcX Q noOwn w0 w e⌝⟩⦄ := by
+  mvcgen [buildOutcome, getRS, elapsed]
+  fx_close
+
+
+theorem emitAbortedOnce_fx (cfg : Cfg) (tl : Bool) (attempt : Nat)
+    (hm : ∀ t, Q (.metric .aborted attempt 0 t) = true) (hl : ∀ t ra, Q (.log .aborted attempt 0 t ra) = true) :
+    ⦃fun w => ⌜FootXS Q w0 w⌝⦄ emitAbortedOnce cfg tl attempt
+    ⦃post⟨fun _ w => ⌜w.rs.lastStop = some .aborted ∧ FootXS Q w0 w⌝, fun e w => ⌜ExcS Q noOwn w0 w e⌝⟩⦄ := by
+  have h_emit_fx := emit_fx Q
+  have h_setStop_fx := setStop_fx Q
+  mvcgen [emitAbortedOnce, getRS, h_emit_fx, h_setStop_fx]
+  fx_close
+
+
+theorem abortOutcome_fx (cfg : Cfg) (tl : Bool) (attempts : Nat)
+    (hm : ∀ t, Q (.metric .aborted attempts 0 t) = true) (hl : ∀ t ra, Q (.log .aborted attempts 0 t ra) = true) :
+    ⦃fun w => ⌜FootXS Q w0 w⌝⦄ abortOutcome cfg tl attempts
+    ⦃post⟨fun o w => ⌜(o.ok = false ∧ o.nextSleep = none ∧ o.stop = some .aborted) ∧ FootXS Q w0 w⌝,
+          fun e w => ⌜ExcS Q noOwn w0 w e⌝⟩⦄ := by
+  have h_emitAbortedOnce_fx := emitAbortedOnce_fx Q
+  have h_buildOutcome_fx := buildOutcome_fx Q
+  mvcgen [abortOutcome, h_emitAbortedOnce_fx, h_buildOutcome_fx]
+  fx_close
+
+/-- `_handle_sleep_decision`: returns its argument; a non-`SleepDecision` raises `ValueError`; DEFER and
+    ABORT leave the corresponding stop reason behind -/
+theorem handleSleepDecision_fx (cfg : Cfg) (tl : Bool) (action : SleepDecision) (attempt sleep : Nat)
+    (hmS : ∀ t, Q (.metric .scheduled attempt sleep t) = true)
+    (hlS : ∀ t ra, Q (.log .scheduled attempt sleep t ra) = true)
+    (hmA : ∀ t, Q (.metric .aborted attempt 0 t) = true) (hlA : ∀ t ra, Q (.log .aborted attempt 0 t ra) = true) :
+    ⦃fun w => ⌜FootXS Q w0 w⌝⦄ handleSleepDecision cfg tl action attempt sleep
+    ⦃post⟨fun r w => ⌜(r = action ∧ action ≠ .other ∧ (action = .defer → w.rs.lastStop = some .scheduled) ∧
+                        (action = .abort → w.rs.lastStop = some .aborted)) ∧ FootXS Q w0 w⌝,
+          fun e w => ⌜ExcS Q (fun e => e = .libValueError ∧ action = .other) w0 w e⌝⟩⦄ := by
+  have h_emit_fx := emit_fx Q
+  have h_setStop_fx := setStop_fx Q
+  have h_emitAbortedOnce_fx := emitAbortedOnce_fx Q
+  mvcgen [handleSleepDecision, getRS, h_emit_fx, h_setStop_fx, h_emitAbortedOnce_fx]
+  fx_close
+
+
+theorem handleSuccessAttemptEnd_fx (cfg : Cfg) (tl : Bool) (attempt v : Nat)
+    (hm : ∀ t, Q (.metric .success attempt 0 t) = true) (hl : ∀ t ra, Q (.log .success attempt 0 t ra) = true)
+    (hs : ∀ k, Q (.stratRecordSuccess k) = true) (he : ∀ c, Q (.attemptEnd c) = true) :
+    ⦃fun w => ⌜FootX Q w0 w⌝⦄ handleSuccessAttemptEnd cfg tl attempt v ⦃fxPost Q w0⦄ := by
+  have h_recordStrategySuccess_fx := recordStrategySuccess_fx Q
+  have h_emit_fx := emit_fx Q
+  have h_callAttemptEnd_fx := callAttemptEnd_fx Q
+  mvcgen [handleSuccessAttemptEnd, h_recordStrategySuccess_fx, h_emit_fx, h_callAttemptEnd_fx]
+  fx_close
+
+theorem handleAbortAttemptEnd_fx (cfg : Cfg) (attempt : Nat) (e : Exn) (he : ∀ c, Q (.attemptEnd c) = true) :
+    ⦃fun w => ⌜FootX Q w0 w⌝⦄ handleAbortAttemptEnd cfg attempt e ⦃fxPost Q w0⦄ := by
+  have h_callAttemptEnd_fx := callAttemptEnd_fx Q
+  mvcgen [handleAbortAttemptEnd, getAS, modifyAS, h_callAttemptEnd_fx]
+  fx_close
+
+theorem emitMaxAttemptsExceeded_fx (cfg : Cfg) (tl : Bool)
+    (hm : ∀ t, Q (.metric .maxAttemptsExceeded cfg.maxAttempts 0 t) = true)
+    (hl : ∀ t ra, Q (.log .maxAttemptsExceeded cfg.maxAttempts 0 t ra) = true) :
+    ⦃fun w => ⌜FootXS Q w0 w⌝⦄ emitMaxAttemptsExceeded cfg tl ⦃fxsPost Q w0⦄ := by
+  have h_emit_fx := emit_fx Q
+  have h_setStop_fx := setStop_fx Q
+  mvcgen [emitMaxAttemptsExceeded, getRS, h_emit_fx, h_setStop_fx]
+  fx_close
+
+
+/-- `raise_exhausted_call`: a `RetryExhaustedError` without `next_sleep_s`, the last exception, or the
+    `RuntimeError` -/
+theorem raiseExhaustedCall_fx (cfg : Cfg)
+    (hm : ∀ t, Q (.metric .maxAttemptsExceeded cfg.maxAttempts 0 t) = true)
+    (hl : ∀ t ra, Q (.log .maxAttemptsExceeded cfg.maxAttempts 0 t ra) = true) :
+    ⦃fun w => ⌜FootXS Q w0 w⌝⦄ raiseExhaustedCall cfg
+    ⦃post⟨fun _ w => ⌜FootXS Q w0 w⌝,
+          fun e w => ⌜ExcS Q (fun e => (∃ f, e = .libExhausted f ∧ f.nextSleep = none) ∨ w.rs.lastExc = some e
+                                        ∨ e = .libRuntimeError) w0 w e⌝⟩⦄ := by
+  have h_emitMaxAttemptsExceeded_fx := emitMaxAttemptsExceeded_fx Q
+  mvcgen [raiseExhaustedCall, getRS, h_emitMaxAttemptsExceeded_fx]
+  fx_close
+
+theorem buildExhaustedOutcome_fx (cfg : Cfg) (tl : Bool)
+    (hm : ∀ t, Q (.metric .maxAttemptsExceeded cfg.maxAttempts 0 t) = true)
+    (hl : ∀ t ra, Q (.log .maxAttemptsExceeded cfg.maxAttempts 0 t ra) = true) :
+    ⦃fun w => ⌜FootXS Q w0 w⌝⦄ buildExhaustedOutcome cfg tl
+    ⦃post⟨fun o w => ⌜o.nextSleep = none ∧ FootXS Q w0 w⌝, fun e w => ⌜ExcS Q noOwn w0 w e⌝⟩⦄ := by
+  have h_emitMaxAttemptsExceeded_fx := emitMaxAttemptsExceeded_fx Q
+  have h_buildOutcome_fx := buildOutcome_fx Q
+  mvcgen [buildExhaustedOutcome, h_emitMaxAttemptsExceeded_fx, h_buildOutcome_fx]
+  fx_close
+
+/-! #### policy level -/
+open Redress.Policy
+
+theorem allow_circuit (c : Breaker.Cfg) (s : Breaker.St) (now : Nat) (ev : Event)
+    (h : (Breaker.allow c s now).1.2.2 = some ev) : circuitEv ev = true := by
+  unfold Breaker.allow at h
+  cases hs : s.state <;> simp only [hs] at h
+  · simp at h
+  · split at h <;> simp at h <;> subst h <;> rfl
+  · split at h <;> simp at h <;> subst h <;> rfl
+
+theorem recordSuccess_circuit (s : Breaker.St) (ev : Event)
+    (h : (Breaker.recordSuccess s).1 = some ev) : circuitEv ev = true := by
+  unfold Breaker.recordSuccess at h
+  cases hs : s.state <;> simp only [hs] at h <;> simp at h
+  subst h; rfl
+
+theorem recordFailure_circuit (c : Breaker.Cfg) (s : Breaker.St) (k : EClass) (now : Nat) (ev : Event)
+    (h : (Breaker.recordFailure c s k now).1 = some ev) : circuitEv ev = true := by
+  unfold Breaker.recordFailure at h
+  cases hs : s.state <;> simp only [hs] at h
+  · split at h
+    · split at h <;> simp at h
+      subst h; rfl
+    · simp at h
+  · simp at h
+  · simp at h; subst h; rfl
+
+theorem emitBreakerEvent_fx (cfg : Cfg) (ev : Option Event) (st : CState) (k : Option EClass)
+    (hm : ∀ ev' t, ev = some ev' → Q (.metric ev' 0 0 t) = true)
+    (hl : ∀ ev' t ra, ev = some ev' → Q (.log ev' 0 0 t ra) = true) :
+    ⦃fun w => ⌜FootX Q w0 w⌝⦄ emitBreakerEvent cfg ev st k ⦃fxPost Q w0⦄ := by
+  have h_askMetric_fx := askMetric_fx Q
+  have h_askLog_fx := askLog_fx Q
+  mvcgen [emitBreakerEvent, swallowException, h_askMetric_fx, h_askLog_fx]
+  fx_close
+
+theorem breakerAllow_fx (bc : Breaker.Cfg) (ha : Q .breakerAllow = true) :
+    ⦃fun w => ⌜FootX Q w0 w⌝⦄ breakerAllow bc
+    ⦃post⟨fun d w => ⌜(∀ ev, d.2.2 = some ev → circuitEv ev = true) ∧ FootX Q w0 w⌝,
+          fun e w => ⌜ExcX Q noOwn w0 w e⌝⟩⦄ := by
+  mvcgen [breakerAllow]
+  all_goals (refine ⟨fun ev hev => allow_circuit _ _ _ ev hev, ?_⟩; fx_chain)
+
+/-- `check_breaker`: raises `CircuitOpenError` itself -/
+theorem checkBreaker_fx (cfg : Cfg) (ha : Q .breakerAllow = true)
+    (hm : ∀ ev t, circuitEv ev = true → Q (.metric ev 0 0 t) = true)
+    (hl : ∀ ev t ra, circuitEv ev = true → Q (.log ev 0 0 t ra) = true) :
+    ⦃fun w => ⌜FootX Q w0 w⌝⦄ checkBreaker cfg ⦃fxPost Q w0 (fun e => ∃ st, e = .libCircuitOpen st)⦄ := by
+  have h_breakerAllow_fx := breakerAllow_fx Q
+  have h_emit := emitBreakerEvent_fx Q
+  mvcgen [checkBreaker, h_breakerAllow_fx, h_emit]
+  fx_close
+  all_goals first
+    | exact hm _ _ (by simp_all)
+    | exact hl _ _ _ (by simp_all)
+    | skip
+
+theorem recordSuccess_fx (cfg : Cfg) (hs : Q .breakerSuccess = true)
+    (hm : ∀ ev t, circuitEv ev = true → Q (.metric ev 0 0 t) = true)
+    (hl : ∀ ev t ra, circuitEv ev = true → Q (.log ev 0 0 t ra) = true) :
+    ⦃fun w => ⌜FootX Q w0 w⌝⦄ Policy.recordSuccess cfg ⦃fxPost Q w0⦄ := by
+  have h_emit := emitBreakerEvent_fx Q
+  mvcgen [Policy.recordSuccess, h_emit]
+  fx_close
+  all_goals first
+    | exact hm _ _ (recordSuccess_circuit _ _ (by assumption))
+    | exact hl _ _ _ (recordSuccess_circuit _ _ (by assumption))
+    | skip
+
+theorem recordCancel_fx (cfg : Cfg) (hc : Q .breakerCancel = true) :
+    ⦃fun w => ⌜FootX Q w0 w⌝⦄ Policy.recordCancel cfg ⦃fxPost Q w0⦄ := by
+  mvcgen [Policy.recordCancel]
+  fx_close
+
+theorem recordFailure_fx (cfg : Cfg) (k : EClass) (hf : Q (.breakerFailure k) = true)
+    (hm : ∀ ev t, circuitEv ev = true → Q (.metric ev 0 0 t) = true)
+    (hl : ∀ ev t ra, circuitEv ev = true → Q (.log ev 0 0 t ra) = true) :
+    ⦃fun w => ⌜FootX Q w0 w⌝⦄ Policy.recordFailure cfg k ⦃fxPost Q w0⦄ := by
+  have h_emit := emitBreakerEvent_fx Q
+  mvcgen [Policy.recordFailure, h_emit]
+  fx_close
+  all_goals first
+    | exact hm _ _ (recordFailure_circuit _ _ _ _ _ (by assumption))
+    | exact hl _ _ _ (recordFailure_circuit _ _ _ _ _ (by assumption))
+    | skip
+
+theorem ensureSettled_fx (cfg : Cfg) (hc : Q .breakerCancel = true) :
+    ⦃fun w => ⌜FootX Q w0 w⌝⦄ ensureSettled cfg ⦃fxPost Q w0⦄ := by
+  have h := recordCancel_fx Q
+  mvcgen [ensureSettled, h]
+  fx_close
+
+theorem noRetryEndHook_fx (cfg : Cfg) (exc : Option Exn) (result : Option Nat) (d : AttemptDecision)
+    (stop : Option StopReason) (cause : Option Cause) (he : ∀ c, Q (.attemptEnd c) = true) :
+    ⦃fun w => ⌜FootX Q w0 w⌝⦄ noRetryEndHook cfg exc result d stop cause ⦃fxPost Q w0⦄ := by
+  have h_ask_fx := ask_fx Q
+  mvcgen [noRetryEndHook, xElapsed, h_ask_fx]
+  fx_close
+
+theorem policyOutcome_fx (ok : Bool) (value : Option Nat) (stop : Option StopReason) (attempts : Nat)
+    (lc : Option EClass) (le : Option String) (cause : Option Cause) :
+    ⦃fun w => ⌜FootX Q w0 w⌝⦄ policyOutcome ok value stop attempts lc le cause
+    ⦃post⟨fun o w => ⌜(o.nextSleep = none ∧ o.stop = stop) ∧ FootX Q w0 w⌝, fun e w => ⌜ExcX Q noOwn w0 w e⌝⟩⦄ := by
+  mvcgen [policyOutcome, xElapsed]
+  fx_close
+
+theorem initCtx_fx : ⦃fun w => ⌜FootX Q w0 w⌝⦄ initCtx ⦃fxPost Q w0⦄ := by
+  mvcgen [initCtx]
+  fx_close
+
+theorem classifyForBreaker_fx (cfg : Cfg) (e : Exn) (hc : Q (.classify e.ref) = true) :
+    ⦃fun w => ⌜FootX Q w0 w⌝⦄ classifyForBreaker cfg e ⦃fxPost Q w0⦄ := by
+  have h := callClassifier_fx Q
+  mvcgen [classifyForBreaker, h]
+  fx_close
+
+theorem handleAbortCall_fx (cfg : Cfg) (e : Exn) (he : ∀ c, Q (.attemptEnd c) = true)
+    (hc : Q .breakerCancel = true) :
+    ⦃fun w => ⌜FootX Q w0 w⌝⦄ handleAbortCall cfg e ⦃fxPost Q w0⦄ := by
+  have h1 := noRetryEndHook_fx Q
+  have h2 := recordCancel_fx Q
+  mvcgen [handleAbortCall, h1, h2]
+  fx_close
+
+theorem handleExhaustedCall_fx (cfg : Cfg) (e : Exn) (hf : ∀ k, Q (.breakerFailure k) = true)
+    (hm : ∀ ev t, circuitEv ev = true → Q (.metric ev 0 0 t) = true)
+    (hl : ∀ ev t ra, circuitEv ev = true → Q (.log ev 0 0 t ra) = true) :
+    ⦃fun w => ⌜FootX Q w0 w⌝⦄ handleExhaustedCall cfg e ⦃fxPost Q w0⦄ := by
+  have h := recordFailure_fx Q
+  mvcgen [handleExhaustedCall, h]
+  fx_close
+
+theorem handleExceptionCall_fx (cfg : Cfg) (e : Exn) (onEnd : Bool) (hf : ∀ k, Q (.breakerFailure k) = true)
+    (hm : ∀ ev t, circuitEv ev = true → Q (.metric ev 0 0 t) = true)
+    (hl : ∀ ev t ra, circuitEv ev = true → Q (.log ev 0 0 t ra) = true)
+    (he : ∀ c, Q (.attemptEnd c) = true) (hc : Q (.classify e.ref) = true) :
+    ⦃fun w => ⌜FootX Q w0 w⌝⦄ handleExceptionCall cfg e onEnd ⦃fxPost Q w0⦄ := by
+  have h1 := noRetryEndHook_fx Q
+  have h2 := classifyForBreaker_fx Q
+  have h3 := recordFailure_fx Q
+  mvcgen [handleExceptionCall, h1, h2, h3]
+  fx_close
+
+end
+end Redress.FX
+
